@@ -18,7 +18,7 @@ lines = [l.strip() for l in open(log, errors='replace') if 'VIOLATION' in l or l
 head = subprocess.check_output(["git", "-C", "/repo", "rev-parse", "--short", "HEAD"], text=True).strip()
 vhead = subprocess.check_output(["git", "-C", "/verif", "rev-parse", "--short", "HEAD"], text=True).strip()
 m.setdefault("checks_run", [])
-m["checks_run"] = [c for c in m["checks_run"] if not (c.get("check") == p and c.get("tier") == tier)]
+# keep the history: an earlier MISSED followed by a later caught documents a strengthened check
 m["checks_run"].append({"check": p, "tier": tier, "exit": int(rc), "caught": int(rc) == 1 and any('VIOLATION' in l for l in lines),
                         "output": lines[-2:], "repo_head": head, "verif_head": vhead})
 json.dump(m, open(mp, 'w'), indent=1)
